@@ -116,10 +116,6 @@ package socket
 //@   flags libframe
 //@   let hm = as(hdr, type(*message))
 //@   modifies hm.body
-//@ iface xfer.XferFilter.OnUnpack
-//@   flags libframe
-//@ iface xfer.XferFilter.OnPack
-//@   flags libframe
 //@ iface codec.Codec.Unmarshal
 //@   flags libframe
 //@ iface codec.Codec.Marshal
@@ -127,11 +123,16 @@ package socket
 
 //@ func (*rawProto).readHeader
 //@   property C15
+//@   flags libframe
+//@   let hm = as(m, type(*message))
+//@   modifies hm.seq, hm.mtype, hm.serviceMethod, hm.status, fields(hm.meta), allelems(type(utils.argsKV))
 //@   requires msgOwnStatus(as(m, type(*message)))
 
 //@ func (*rawProto).Unpack
-//@   property C15
+//@   property C15 C12
 //@   requires msgOwnStatus(as(m, type(*message)))
+//@   requires[no-pending-refusal] @C12 !ghost.appendFailed
+//@   ensures[refusal-propagated] @C12 result == nil ==> !ghost.appendFailed
 
 //@ iface socket.Proto.Unpack
 //@   params self msg
@@ -143,3 +144,11 @@ package socket
 //@ func (*socket).ReadMessage
 //@   property C15
 //@   requires msgOwnStatus(as(message, type(*message)))
+
+//@ func (*rawProto).readMessage
+//@   property C12
+//@   flags libframe
+//@   let rm = as(m, type(*message))
+//@   modifies rm.size, fields(rm.xferPipe), allelems(type(xfer.XferFilter)), bb.B, lockset, ghost.appendFailed
+//@   requires[no-pending-refusal] !ghost.appendFailed
+//@   ensures[refusal-propagated] result == nil ==> !ghost.appendFailed
